@@ -62,7 +62,7 @@ func runR042(c *core.Ctx) {
 						return true
 					}
 					if call, ok := core.Unparen(as.Rhs[0]).(*ast.CallExpr); ok {
-						if cf := core.Callee(inf, call); cf != nil && cf.Name() == "ReadInterface" {
+						if cf := core.Callee(inf, call); cf != nil && core.NameOf(cf) == "ReadInterface" {
 							if o := core.ObjOf(inf, as.Lhs[0]); o != nil {
 								decoded[o] = true
 							}
@@ -82,12 +82,12 @@ func runR042(c *core.Ctx) {
 							if core.IsMethod(cf, "reflect", "Value", "Interface") {
 								return "reflect.Value.Interface()"
 							}
-							if cf.Name() == "ReadInterface" {
+							if core.NameOf(cf) == "ReadInterface" {
 								return "result of ReadInterface()"
 							}
 						}
 					case *ast.SelectorExpr:
-						if fv, ok := core.ObjOf(inf, x).(*types.Var); ok && fv.IsField() && fv.Name() == "value" {
+						if fv, ok := core.ObjOf(inf, x).(*types.Var); ok && fv.IsField() && core.NameOf(fv) == "value" {
 							if nn := namedOf(inf.Types[x.X].Type); nn != nil && nn.Obj().Name() == "anyReader" {
 								return "the untyped reader's value"
 							}
@@ -207,7 +207,7 @@ func runR043(c *core.Ctx) {
 						if sel, ok := core.Unparen(e).(*ast.SelectorExpr); ok {
 							if k, ok := core.ObjOf(inf, sel).(*types.Const); ok && k.Pkg() != nil && k.Pkg().Path() == "reflect" {
 								for _, a := range allowed {
-									if a == k.Name() || a == "*valid" && k.Name() != "Invalid" {
+									if a == k.Name() || a == "*valid" && core.NameOf(k) != "Invalid" {
 										return true
 									}
 								}
@@ -340,7 +340,7 @@ func runR043(c *core.Ctx) {
 									if as, ok := n.(*ast.AssignStmt); ok && len(as.Rhs) == 1 {
 										// v = v.Elem() of a non-nil pointer is valid; v = reflect.ValueOf(x) is valid iff x != nil (unknown)
 										if call, ok := core.Unparen(as.Rhs[0]).(*ast.CallExpr); ok {
-											if cf := core.Callee(inf, call); cf != nil && cf.Name() == "Elem" && wasNonNil {
+											if cf := core.Callee(inf, call); cf != nil && core.NameOf(cf) == "Elem" && wasNonNil {
 												state = 1
 											}
 										}
